@@ -376,9 +376,8 @@ func (c ProtoMapCodec) Append(data []byte, ptr unsafe.Pointer, tag []byte) []byt
 }
 
 func (c ProtoMapCodec) Read(data []byte, ptr unsafe.Pointer, wt plenccore.WireType) (n int, err error) {
-	if len(data) == 0 {
-		return 0, nil
-	}
+	// Note an empty entry is valid: it is an entry with a zero key and a zero
+	// value
 
 	// ptr is a pointer to a map pointer
 	if *(*unsafe.Pointer)(ptr) == nil {
